@@ -6,7 +6,6 @@ import (
 	"testing"
 	"time"
 
-	"github.com/pion/interceptor/internal/sequencenumber"
 	"github.com/pion/interceptor/pkg/rfc8888"
 	"github.com/pion/interceptor/verifharness/kit"
 	"github.com/pion/rtcp"
@@ -21,10 +20,33 @@ type Step struct {
 	ECN     uint8  `json:"ecn,omitempty"`
 	AtNS    int64  `json:"at_ns"` // arrival time / report time, ns after the epoch used by the case
 	MaxSize int    `json:"max_size,omitempty"`
+	// Run > 0: that many consecutive in-order packets of SSRC starting at Seq, 1 ms apart from AtNS on, with a report of up to MaxSize bytes after every 400
+	Run int `json:"run,omitempty"`
+}
+
+// refUnwrapper extends 16-bit sequence numbers by the nearest-value rule (steps here stay below 2^15), never below zero.
+type refUnwrapper struct {
+	init bool
+	last int64
+}
+
+func (u *refUnwrapper) unwrap(seq uint16) int64 {
+	if !u.init {
+		u.init, u.last = true, int64(seq)
+
+		return u.last
+	}
+	v := u.last + int64(int16(seq-uint16(u.last))) //nolint:gosec
+	if v < 0 {
+		v += 65536
+	}
+	u.last = v
+
+	return v
 }
 
 type streamModel struct {
-	unwrap  sequencenumber.Unwrapper // verified by C20
+	unwrap  refUnwrapper
 	init    bool
 	cursor  int64
 	highest int64
@@ -109,7 +131,7 @@ func (rm *recModel) add(st Step) {
 		m = &streamModel{first: map[int64]arrival{}}
 		rm.streams[st.SSRC] = m
 	}
-	u := m.unwrap.Unwrap(st.Seq)
+	u := m.unwrap.unwrap(st.Seq)
 	if !m.init {
 		m.init, m.cursor, m.highest = true, u, u
 	}
@@ -264,6 +286,24 @@ func run(steps []Step) (err error, reports int, classes map[string]bool) {
 	r := rfc8888.NewRecorder()
 	rm := newRecModel()
 	for i, st := range steps {
+		if st.Run > 0 {
+			for k := 0; k < st.Run; k++ {
+				one := Step{SSRC: st.SSRC, Seq: st.Seq + uint16(k), AtNS: st.AtNS + int64(k)*1_000_000} //nolint:gosec
+				r.AddPacket(at(one.AtNS), one.SSRC, one.Seq, 0)
+				rm.add(one)
+				if k%400 == 399 {
+					rs := Step{Report: true, AtNS: one.AtNS + 500_000, MaxSize: st.MaxSize}
+					rep := r.BuildReport(at(rs.AtNS), rs.MaxSize)
+					reports++
+					if e := rm.check(rep, rs); e != nil {
+						return fmt.Errorf("step %d (in-order run, packet %d of %d, report #%d): %w", i, k, st.Run, reports, e), reports, rm.classes
+					}
+				}
+			}
+			rm.classes["long-in-order-run"] = true
+
+			continue
+		}
 		if !st.Report {
 			o := kit.Guard(0, func() { r.AddPacket(at(st.AtNS), st.SSRC, st.Seq, st.ECN) })
 			if !o.OK() {
@@ -320,8 +360,22 @@ func genHistory(t *rapid.T) []Step {
 		rapid.IntRange(0, 3000), rapid.IntRange(0, 120), rapid.Just(1200), rapid.IntRange(20, 400), rapid.IntRange(3000, 32768),
 	)
 	var steps []Step
+	runAt := -1
+	if rapid.IntRange(0, 39).Draw(t, "longRun") == 0 { // more than half the sequence space received strictly in order, then the ordinary mix goes on
+		runAt = rapid.IntRange(0, n-1).Draw(t, "runAt")
+	}
 	for i := 0; i < n; i++ {
 		clock += dclock.Draw(t, "dt")
+		if i == runAt {
+			k := rapid.IntRange(0, nss-1).Draw(t, "runStream")
+			length := rapid.IntRange(32000, 40000).Draw(t, "runLength")
+			seqs[k]++
+			steps = append(steps, Step{SSRC: ssrcs[k], Seq: seqs[k], AtNS: clock, Run: length, MaxSize: rapid.SampledFrom([]int{1200, 4000, 32768}).Draw(t, "runMax")})
+			seqs[k] += uint16(length - 1) //nolint:gosec
+			clock += int64(length) * 1_000_000
+
+			continue
+		}
 		if rapid.IntRange(0, 11).Draw(t, "rep") == 0 {
 			steps = append(steps, Step{Report: true, AtNS: clock, MaxSize: maxSize.Draw(t, "max")})
 
@@ -360,7 +414,7 @@ func TestRecorderReports(t *testing.T) {
 		}
 		h := kit.NewH()
 		for _, s := range steps {
-			h.U(uint64(s.SSRC), uint64(s.Seq), uint64(s.AtNS), uint64(s.MaxSize)) //nolint:gosec
+			h.U(uint64(s.SSRC), uint64(s.Seq), uint64(s.AtNS), uint64(s.MaxSize), uint64(s.Run)) //nolint:gosec
 		}
 		var cl []string
 		for c := range classes {
